@@ -386,7 +386,28 @@ func (r *runner) roundTrip(tg *target, v interface{}, hand []byte, src string) [
 		var what string
 		enc, what = r.encode(tg, v)
 		if what != "" {
+			// the reactor, WAL and store messages of the hand-written lists in
+			// targets.go are what a node sends and stores: each of them must be
+			// encodable as the interface value it travels as
+			if tg.iface && v != nil && src == "realistic" {
+				r.violate("roundtrip", fmt.Sprintf("roundtrip/%s/unencodable/%T", tg.name, v), "a %T value the node sends as %s cannot be encoded (%s)", v, tg.name, what)
+			}
 			return nil
+		}
+		if tg.iface && v != nil && src == "realistic" {
+			// ... and what the sender's entry point (EncodeToBytesWithType, used by
+			// every reactor's send path) produces must decode at the receiver
+			var wt []byte
+			var err error
+			_, _, _, p := try(func() { wt, err = ser.EncodeToBytesWithType(v) })
+			if p || err != nil {
+				r.violate("roundtrip", fmt.Sprintf("roundtrip/%s/withtype-unencodable/%T", tg.name, v), "EncodeToBytesWithType(%T) fails (panic=%v err=%v)", v, p, err)
+				return nil
+			}
+			if ow := r.decode(eBytes, tg, wt, nil, 0, src); !ow.panicked && !ow.ok {
+				r.violate("roundtrip", fmt.Sprintf("roundtrip/%s/sent-bytes-do-not-decode/%T", tg.name, v), "the bytes EncodeToBytesWithType(%T) produces (what a reactor sends) do not decode as %s at the receiver: %x", v, tg.name, clipN(wt, 64))
+				return nil
+			}
 		}
 		// repeat-encode: identical bytes every time (maps iterate randomly)
 		reps := 2
